@@ -3,7 +3,7 @@
    (what the code does) and C08/Spec.v (what a valid file is; wf_state). *)
 From Coq Require Import List NArith ZArith Bool String Ascii Permutation Reals.
 From T4V Require Import Base.Str C08.Model C08.Spec C08.ProofsSets C08.ProofsWrite C08.ProofsPrune
-     C08.ProofsTail C08.SurfEq C08.Parse C08.ProofsChars C08.ProofsParse C08.ProofsGiven C08.ProofsEnd C08.CheckText C08.Check C08.ProofsRefute C08.LinkC01a C08.LinkC01b C08.LinkC01.
+     C08.ProofsTail C08.SurfEq C08.Parse C08.ProofsChars C08.ProofsParse C08.ProofsGiven C08.ProofsEnd C08.CheckText C08.Check C08.ProofsRefute C08.LinkC01a C08.LinkC01b C08.LinkC01c C08.LinkC01 C08.ProofsHelpers C08.LinkFull.
 Import ListNotations.
 
 (* VolumeT4.__str__: for EVERY volume (no hypothesis), each declared count equals the
@@ -244,6 +244,68 @@ Theorem C08_convert_wf_surfaces_linked :
 Proof. exact convert_wf_linked_surfaces. Qed.
 Print Assumptions C08_convert_wf_surfaces_linked.
 
+(* ---- round 3: the three places where the C01 link stopped ---------------------------------- *)
+(* (a) the skip list.  A key of the table of C01's conversion loop is a cell of the conversion
+   list or a number above the initial counter (C08/LinkC01c.v: structural re-proof over C01's
+   definitions, from C01's flag_ids / expand_ok / optimise_ids); so cells of importance 0
+   (numbers below the counter, not in the list) are not keys *)
+Theorem C08_table_keys_linked : forall fuel cells matching u0 u1 todo cnt0 s',
+  M1.convert_cells fuel cells matching u0 u1 todo (M1.mkSt cnt0 [] [] []) = M1.Ok s' ->
+  forall k, defined (M1.vols s') k -> In k todo \/ (cnt0 < k)%Z.
+Proof. exact convert_cells_table_keys. Qed.
+Print Assumptions C08_table_keys_linked.
+
+(* (b) number_items, linked with C02 (C02.ProofsNum.number_items_spec = C02_number_items_spec):
+   every TRIPOLI-4 number of the matching is a key of the numbering, whose keys are distinct *)
+Theorem C08_matching_numbers_linked : forall (A : Type) (dic : list (Z * list (A * Z))) num mat,
+  M2.number_items dic = M2.Ok (num, mat) ->
+  (forall k, In k (P2.keys dic) -> (0 < k)%Z) -> NoDup (P2.keys dic) ->
+  Forall (fun kv => P2.unit_sides (snd kv)) dic ->
+  NoDup (map fst num) /\
+  forall key ids, M1.lookup key mat = Some ids -> Forall (fun x => In (Z.abs x) (map fst num)) ids.
+Proof. exact @c02_matching_numbers. Qed.
+Print Assumptions C08_matching_numbers_linked.
+
+(* (c) the helper planes: construct_volume_t4 inserts them itself (Model.insert_helpers, tied
+   to every snapshot by tie:helpers), so helpers_ok is a consequence *)
+Theorem C08_insert_helpers_ok :
+  forall (E : Type) (eeqb : E -> E -> bool) (surfs surfs' : stable E) h0 h1 u0 u1,
+  insert_helpers surfs h0 h1 = Ok (surfs', u0, u1) ->
+  NoDup (keys surfs) -> eeqb (s_eq h0) (s_eq h1) = false ->
+  helpers_ok eeqb surfs' u0 u1 /\
+  (forall k, In k (keys surfs) -> (k < u0)%Z) /\ (u1 = u0 + 1)%Z /\
+  keys surfs' = (keys surfs ++ [u0; u1])%list /\
+  (forall p, In p surfs -> In p surfs').
+Proof. intros E. exact (@insert_helpers_ok E). Qed.
+Print Assumptions C08_insert_helpers_ok.
+
+(* ALL LINKS TOGETHER: C02's number_items, the helper-plane insertion, C01's conversion loop,
+   C08's tail, writers, printer and reader.  From the dictionary of surface collections and
+   the cell trees to the characters of the file, for every option set.  What is still asked
+   (stage0_rest3): the volume table is not empty, the skipped cells are numbers below the
+   counter outside the conversion list, the cells behind the non-virtual volumes have a
+   material card and a live cell, normalize_float is idempotent on stored densities, the
+   strings of the tables are words *)
+Theorem C08_convert_wf_full_linked :
+  forall (A : Type) (dic : list (Z * list (A * Z))) num mat
+         (surfs0 : stable (spayload R)) fuel cells u0 u1 todo cnt0 s' skip_dedup (w : wstate (spayload R)),
+  M2.number_items dic = M2.Ok (num, mat) ->
+  (forall k, In k (P2.keys dic) -> (0 < k)%Z) -> NoDup (P2.keys dic) ->
+  Forall (fun kv => P2.unit_sides (snd kv)) dic ->
+  keys surfs0 = map fst num -> (exists k, In k (keys surfs0) /\ (0 < k)%Z) ->
+  insert_helpers surfs0 (helper_plane "1" 1%R) (helper_plane "-1" (-1)%R) = Ok (w_surfs w, u0, u1) ->
+  M1.convert_cells fuel cells mat u0 u1 todo (M1.mkSt cnt0 [] [] []) = M1.Ok s' ->
+  w_vols w = tr_table (M1.vols s') ->
+  stage0_rest3 cnt0 todo w ->
+  exists o, convert_tail Req_payload skip_dedup u0 u1 w = Ok o /\
+    (o = Died false [] EValue \/
+     exists f, (o = Complete f \/ exists e, o = Raised f e) /\
+               wf_file f /\ parse_t4 (print_t4 f) = Some f /\
+               forall finite : string -> Prop,
+                 Forall finite (state_numbers w) -> Forall finite (file_numbers f)).
+Proof. exact convert_wf_full_linked. Qed.
+Print Assumptions C08_convert_wf_full_linked.
+
 (* ---- open defects: a composition that is named but not written.  The hypothesis cell_named
    (s0_cells / ws_cells) of the theorems above cannot be dropped: with closed tables, a cell
    material without M card, or a cell of negative importance, gives a file whose GEOMCOMP
@@ -311,6 +373,17 @@ Example C08_convert_wf_linked_example :
   List.length (w_vols ex_w) = 9%nat /\
   map fst (filter (fun p => negb (v_fictive (snd p))) (w_vols ex_w)) = [10; 20; 30]%Z.
 Proof. exact convert_wf_linked_example. Qed.
+
+(* (d) orphan FICTIVE volumes left by the single pass of remove_unused_volumes (observed by
+   C16) are harmless for every clause of the property: an instance *)
+Example C08_orphan_fictive_harmless :
+  refs_ok surfs_orphan vols_orphan /\
+  exists surfs' vols' ren' f,
+    prune Nat.eqb false surfs_orphan vols_orphan 6 7 = Ok (surfs', vols', ren') /\
+    keys vols' = [3; 4]%Z /\ used_ids vols' = [] /\
+    write_file ren' (mkW surfs' vols' [] [(4%Z, cell_m1 true)] mat_h [] [] false false false) = Complete f /\
+    wf_file f /\ In "VOLU 3 EQUA PLUS 1 2 FICTIVE ENDV"%string (print_file f).
+Proof. exact orphan_fictive_harmless. Qed.
 
 (* flagged surfaces: unused one dropped, merged one listed under the survivor's number,
    conflicting kinds -> ValueError after a well-formed file without the block *)
